@@ -117,7 +117,9 @@ func (f FnGen) Val(kind string, subject string) jv.Val {
 		}
 		return jv.VStr(Str(t))
 	case "padded":
-		ws := []string{"", " ", "  ", "\t", "\n ", "　", " ", "x", "xy", "š", "č", "中", "а", "\u0120", "\u2020", "\u0109", "\U00010020", "ń"}
+		ws := []string{"", " ", "  ", "\t", "\n ", "　", " ", "x", "xy", "š", "č", "中", "а", "\u0120", "\u2020", "\u0109", "\U00010020", "ń",
+			// every kind of white space, alone and in runs that end in an ASCII one
+			"\v", "\f", "\r", "\u0085", "\u2028", "\u2029", "\u00a0", "\u1680", "\u2003", "\u202f", "\u205f", " \f ", "\v\t", "\f\n", "\u2003 ", "\r\n\v", "\t\f\t"}
 		return jv.VStr(Pick(t, "lws", ws) + Pick(t, "core", []string{"a", "a b", "", "é", "xax", "subject string"}) + Pick(t, "rws", ws))
 	case "str1":
 		return jv.VStr(Pick(t, "pad", []string{"-", " ", "0", "é", "日", "😀", "", "ab", "--", "éé", "́"}))
